@@ -66,7 +66,7 @@ LEVEL_NOTE = (
     "cells, at most two meshes, no MeshSequence / intersect measures / subdomain_data"
 )
 RULE = (
-    "case i = (metadata family, subdomain-id pattern, append option, integral types, integrand pool from the seeded generator, "
+    "cases 0-35 = fixed metadata probe pairs (both append options); case i >= 36 = (metadata family, subdomain-id pattern, append option, integral types, integrand pool from the seeded generator, "
     "direct call or compute_form_data tap, coordinate derivatives, one or two meshes); distinct = (family, id pattern, append, "
     "types, mode, coordinate-derivative chains, skeleton depth 2 of the first integrand); non-trivial = grouping accepted the "
     "form, every compared group was decided and at least one group has a non-zero reference value"
@@ -476,6 +476,19 @@ class Values:
             self.keep.append(e)
         return r
 
+    def evaluable(self, e, itype):
+        """Can the reference interpreter give this integrand a value (no unrestricted jump terms, unsupported nodes)?"""
+        ws = self.worlds_for(itype)
+        if ws is None:
+            return False
+        try:
+            self.value(e, ws[0], oracle.CB)
+        except (oracle.Unsupported, oracle.Ambiguous, oracle.StructureMismatch):
+            return False
+        except Exception:
+            return True  # numerical trouble in this world: left to the three-valued comparison
+        return True
+
     def total(self, exprs, w, B):
         tot = None
         flags = set()
@@ -603,12 +616,7 @@ def judge_group_event(ctx, vals, fin_integrals, append, out_integrals, drop_degr
         violated = True
         dk, it, k = sl
         rel = slice_relation(k, info.get(sl, set()), append)
-        all_in = [e for key in ks for e in gin.get(key, [])]
-        all_out = [e for key in ks for e in gout.get(key, [])]
-        tv, _, _ = vals.compare(all_in, all_out, it)
-        suspect = [key for key in ks if verdicts[key][0] in ("violated", "inconclusive")]
-        Ms = sorted({key[3] for key in suspect}, key=repr)
-        chains = {key[4] for key in suspect}
+        suspect = [key for key in ks if verdicts[key][0] != "held"]
         first = bad[0]
         bv = next((x for x in verdicts[first][1] if x.kind in ("disagree", "output-ambiguous")), None)
         detail = {
@@ -617,16 +625,15 @@ def judge_group_event(ctx, vals, fin_integrals, append, out_integrals, drop_degr
             "output": [[str(i.subdomain_id()), md_text(i.metadata()), safe_str(i.integrand(), 300)] for i in out_integrals if i.integral_type() == it][:8],
             "world": vals.worlds_for(it)[0].describe() if vals.worlds_for(it) else None,
         }
-        if tv != "violated" and len(Ms) >= 2:
-            losers = [key for key in suspect if gin.get(key) and not gout.get(key)]
-            gainers = [key for key in suspect if gout.get(key)]
-            pair = next(((g_[3], l_[3]) for l_ in losers for g_ in gainers if g_[3] != l_[3] and g_[4] == l_[4]), (Ms[0], Ms[1]))
-            raws = [raw_in.get(m, raw_out.get(m)) for m in pair]
+        merged = find_merge(vals, it, suspect, gin, gout, same=4, differ=3)
+        merged_cd = None if merged else find_merge(vals, it, suspect, gin, gout, same=3, differ=4)
+        if merged:
+            raws = [raw_in.get(m[3], raw_out.get(m[3])) for m in merged]
             dkd = diffkind(raws[0], raws[1])
             ctx.violation(f"C15/{label}/merged-different-metadata/{dkd}",
                           f"integrands with metadata {md_text(raws[0])} and {md_text(raws[1])} on ({it}, subdomain {k}) were merged into one integral "
                           f"(difference: {dkd}); {bv.kind if bv else ''} rel. err {bv.err if bv else None}", detail)
-        elif tv != "violated" and len(chains) >= 2:
+        elif merged_cd:
             ctx.violation(f"C15/{label}/merged-different-coordinate-derivatives/{rel}",
                           f"integrands under different coordinate derivatives on ({it}, subdomain {k}) were merged", detail)
         else:
@@ -641,6 +648,27 @@ def judge_group_event(ctx, vals, fin_integrals, append, out_integrals, drop_degr
     if vv and all(v in ("held", "skipped") for v in vv) and "held" in vv:
         return "held", stats
     return "undecided", stats
+
+
+def find_merge(vals, itype, suspect, gin, gout, same, differ):
+    """(gainer key, swallowed key) if the integrands of one group (component `differ` of the key different, component `same`
+    equal) moved into another group of the same slice: the joint totals of the groups agree although each group disagrees."""
+    plausible = None
+    for g_ in suspect:
+        if not gout.get(g_):
+            continue
+        losers = [l_ for l_ in suspect if gin.get(l_) and not gout.get(l_) and l_[differ] != g_[differ] and l_[same] == g_[same]]
+        if not losers:
+            continue
+        trials = [[l_] for l_ in losers] + ([losers] if len(losers) > 1 else [])
+        for ls in trials:
+            ins = list(gin.get(g_, [])) + [e for l_ in ls for e in gin[l_]]
+            v, _, _ = vals.compare(ins, gout[g_], itype)
+            if v == "held":
+                return (g_, ls[0])
+            if v != "violated" and plausible is None:
+                plausible = (g_, ls[0])
+    return plausible
 
 
 def ctx_rng_for(keys):
@@ -767,7 +795,7 @@ def make_integral(rng, it, mesh, sid, e, md):
     return list(form.integrals()), ("tuple-measure" if isinstance(sid, tuple) else "measure")
 
 
-def build_case_form(ctx, rng, cell, gdim, cplx, variants, with_cd, two_meshes):
+def build_case_form(ctx, rng, cell, gdim, cplx, variants, with_cd, two_meshes, vals):
     itypes = rng.choice([["cell"], ["cell", "exterior_facet"], ["cell", "exterior_facet", "interior_facet"], ["exterior_facet", "interior_facet"],
                          ["interior_facet"], ["cell", "interior_facet"]])
     arity = rng.choice([0, 0, 1, 2])
@@ -781,7 +809,12 @@ def build_case_form(ctx, rng, cell, gdim, cplx, variants, with_cd, two_meshes):
         mesh = base.integrals()[0].ufl_domain()
         pools = {}
         for it, _sid, integrand, _md in pieces:
-            pools.setdefault(it, []).append(integrand)
+            if vals.evaluable(integrand, it):
+                pools.setdefault(it, []).append(integrand)
+            else:
+                ctx.count("pool_integrands_without_reference_value")
+        if not pools:
+            raise ValueError("no evaluable integrand in the pool")
         x = ufl.SpatialCoordinate(mesh)
         dirs = None
         if with_cd:
@@ -877,8 +910,9 @@ def probe_case(ctx, i, rng):
     vals = Values(rng, cell, gdim, False)
     same = mcanon(ma) == mcanon(mb)
     for append in (True, False):
-        F = (f * ufl.dx(1, domain=mesh, metadata=ma) + g * ufl.dx(1, domain=mesh, metadata=mb) + f * ufl.dx((1, 2), domain=mesh, metadata=mb)
-             + g * ufl.dx(domain=mesh, metadata=ma))
+        # (no integrand occurs under both metadata on one subdomain: UFL orders equal integrands by comparing their metadata)
+        F = (f * ufl.dx(1, domain=mesh, metadata=ma) + g * ufl.dx(1, domain=mesh, metadata=mb) + (2 * f) * ufl.dx((1, 2), domain=mesh, metadata=mb)
+             + (3 * g) * ufl.dx(domain=mesh, metadata=ma))
         try:
             with warnings.catch_warnings():
                 warnings.simplefilter("ignore")
@@ -892,11 +926,8 @@ def probe_case(ctx, i, rng):
         if v == "held":
             ctx.count("probe_held")
             ctx.covered("probes_held", name)
-            n1 = [itg for itg in G.integrals() if 1 in itg.subdomain_id()]
-            want = 1 if (same and not append) else (2 if not append else (1 if same else 2))
-            ctx.covered("probes_merged" if same else "probes_kept_apart", name)
+            ctx.covered("probes_same_metadata_merged" if same else "probes_different_metadata_kept_apart", name)
             ctx.add_distinct(("probe", name, append))
-            del n1, want
         elif v == "undecided":
             ctx.count("probe_undecided")
 
@@ -914,15 +945,15 @@ def case(ctx, i, rng):
     two_meshes = mode == "direct" and not with_cd and rng.random() < 0.12
     fam_name, fam = choose_family(rng)
     variants = fam(rng)
+    vals = Values(rng, cell, gdim, cplx)
     try:
         with warnings.catch_warnings():
             warnings.simplefilter("ignore")
-            F, pattern, itypes, chains_used = build_case_form(ctx, rng, cell, gdim, cplx, variants, with_cd, two_meshes)
+            F, pattern, itypes, chains_used = build_case_form(ctx, rng, cell, gdim, cplx, variants, with_cd, two_meshes, vals)
     except Exception as ex:
         ctx.count("build_rejected")
         ctx.covered("build_rejected_with", type(ex).__name__ + ": " + str(ex)[:60])
         return
-    vals = Values(rng, cell, gdim, cplx)
     events = []
     with warnings.catch_warnings():
         warnings.simplefilter("ignore")
